@@ -141,7 +141,14 @@ class Polylist(primitive.Primitive):
         self.nindices = max_offset + 1
         self.vcounts = vcounts
         self.sources = sources
-        self.index.shape = (-1, self.nindices)
+        try:
+            self.index.shape = (-1, self.nindices)
+        except ValueError:
+            raise DaeMalformedError('Polylist index of size %d is not a multiple of %d inputs'
+                                    % (self.index.size, self.nindices))
+        if numpy.sum(self.vcounts) != len(self.index):
+            raise DaeMalformedError('Polylist vcounts add up to %d vertices but the index has %d'
+                                    % (numpy.sum(self.vcounts), len(self.index)))
         self.npolygons = len(self.vcounts)
         self.nvertices = numpy.sum(self.vcounts) if len(self.index) > 0 else 0
         self.polyends = numpy.cumsum(self.vcounts)
